@@ -68,5 +68,273 @@ theorem unquote_prepare (d : Bool) (t : Str) : unquote true d (prepareTextForDbm
     rw [unquote_plain _ _ c _ (by intro e; subst e; simp at h3), ih]
   | case5 => rfl
 
+/-! ### the literal cannot be ended early: one-line `'…'` -/
+
+def oneLine (t : Str) : Bool := !t.any fun c => c = '\n' || c = '\r'
+
+theorem scanQ1_esc (q d : Char) (r : Str) (hd : d ≠ '\n') :
+    scanQ1 q ('\\' :: d :: r) = (scanQ1 q r).map (fun p => ('\\' :: d :: p.1, p.2)) := by
+  rw [scanQ1.eq_def]
+  simp only [hd, ↓reduceIte]
+  cases scanQ1 q r <;> rfl
+
+theorem scanQ1_close (q : Char) (r : Str) (hq : q ≠ '\\') : scanQ1 q (q :: r) = some ([], r) := by
+  rw [scanQ1.eq_def]
+  split
+  · rename_i h; simp at h; exact absurd h.1 hq
+  · rename_i h; simp at h; obtain ⟨rfl, rfl⟩ := h; simp
+  · rename_i h; simp at h
+
+theorem scanQ1_plain (q c : Char) (r : Str) (h1 : c ≠ q) (h2 : c ≠ '\n') (h3 : c ≠ '\r') (h4 : c ≠ '\\') :
+    scanQ1 q (c :: r) = (scanQ1 q r).map (fun p => (c :: p.1, p.2)) := by
+  rw [scanQ1.eq_def]
+  split
+  · rename_i h; simp at h; exact absurd h.1 h4
+  · rename_i h; simp at h; obtain ⟨rfl, rfl⟩ := h
+    simp only [h1, ↓reduceIte, h2, h3, h4, Bool.or_self, Bool.false_eq_true, decide_false]
+    cases scanQ1 q r <;> rfl
+  · rename_i h; simp at h
+
+theorem hasTriple_cons (c : Char) (r : Str) (h : hasTriple (c :: r) = false) : hasTriple r = false := by
+  rw [hasTriple.eq_def] at h
+  split at h
+  · simp at h
+  · rename_i h'; simp at h'; obtain ⟨_, rfl⟩ := h'; exact h
+  · rename_i h'; simp at h'
+
+/-- A one-line text without `'''` written as `'` + escaped text + `'` is scanned exactly up to its
+    closing quote: whatever the text contains — quotes, backslashes, brackets, comment markers —
+    it cannot end the literal early nor swallow what follows. -/
+theorem scanQ1_prepare (t rest : Str) (h1 : oneLine t = true) (h3 : hasTriple t = false) :
+    scanQ1 '\'' (prepareTextForDbml t ++ '\'' :: rest) = some (prepareTextForDbml t, rest) := by
+  fun_induction prepareTextForDbml t with
+  | case1 r ih => simp [hasTriple] at h3
+  | case2 r hr ih =>
+    have h1' : oneLine r = true := by simpa [oneLine] using h1
+    simp only [List.cons_append]
+    rw [scanQ1_esc _ _ _ (by decide), ih h1' (hasTriple_cons _ _ h3)]
+    rfl
+  | case3 r ih =>
+    have h1' : oneLine r = true := by simpa [oneLine] using h1
+    simp only [List.cons_append]
+    rw [scanQ1_esc _ _ _ (by decide), ih h1' (hasTriple_cons _ _ h3)]
+    rfl
+  | case4 c r hc1 hc2 hc3 ih =>
+    have hq : c ≠ '\'' := by intro e; subst e; simp at hc2
+    have hb : c ≠ '\\' := by intro e; subst e; simp at hc3
+    have hn : c ≠ '\n' ∧ c ≠ '\r' := by
+      simp [oneLine] at h1
+      exact ⟨h1.1.1, h1.1.2⟩
+    have h1' : oneLine r = true := by
+      simp [oneLine] at h1 ⊢
+      exact h1.2
+    simp only [List.cons_append]
+    rw [scanQ1_plain _ _ _ hq hn.1 hn.2 hb, ih h1' (hasTriple_cons _ _ h3)]
+    rfl
+  | case5 => simpa using scanQ1_close '\'' rest (by decide)
+
+/-! ### multi-line `'''…'''` -/
+
+theorem scanQ3_esc (d : Char) (r : Str) :
+    scanQ3 ('\\' :: d :: r) = (scanQ3 r).map (fun p => ('\\' :: d :: p.1, p.2)) := by
+  rw [scanQ3.eq_def]
+  split
+  · rename_i h; simp at h; obtain ⟨rfl, rfl⟩ := h; cases scanQ3 r <;> rfl
+  · rename_i h; simp at h
+  · rename_i h; simp at h
+  · rename_i h; simp at h
+  · rename_i h; simp at h
+  · rename_i h; obtain ⟨rfl, rfl⟩ := h; simp_all
+  · rename_i h; simp at h
+
+theorem scanQ3_close (r : Str) : scanQ3 ('\'' :: '\'' :: '\'' :: r) = some ([], r) := by
+  rw [scanQ3.eq_def]
+  split
+  · rename_i h; simp at h
+  · rename_i h; simp at h; subst h; rfl
+  · rename_i h1 h; simp at h; subst h; exact absurd rfl (h1 _)
+  · rename_i h1 h2 h; simp at h; subst h; exact absurd rfl (h1 _)
+  · rename_i h; simp at h
+  · rename_i h1 h2 h3 h4 h; simp at h; exact absurd h.1.symm h3
+  · rename_i h; simp at h
+
+theorem scanQ3_plain (c : Char) (r : Str) (h1 : c ≠ '\'') (h2 : c ≠ '\\') :
+    scanQ3 (c :: r) = (scanQ3 r).map (fun p => (c :: p.1, p.2)) := by
+  rw [scanQ3.eq_def]
+  split
+  · rename_i h; simp at h; exact absurd h.1 h2
+  · rename_i h; simp at h; exact absurd h.1 h1
+  · rename_i h; simp at h; exact absurd h.1 h1
+  · rename_i h; simp at h; exact absurd h.1 h1
+  · rename_i h; simp at h; exact absurd h.1 h2
+  · rename_i h; simp at h; obtain ⟨rfl, rfl⟩ := h; cases scanQ3 r <;> rfl
+  · rename_i h; simp at h
+
+/-- two unescaped quotes followed by something that is not a quote are part of the body -/
+theorem scanQ3_two (x : Char) (r : Str) (hx : x ≠ '\'') :
+    scanQ3 ('\'' :: '\'' :: x :: r) = (scanQ3 (x :: r)).map (fun p => ('\'' :: '\'' :: p.1, p.2)) := by
+  rw [scanQ3.eq_def]
+  split
+  · rename_i h; simp at h
+  · rename_i h; simp at h; exact absurd h.1 hx
+  · rename_i h; simp at h; obtain ⟨rfl⟩ := h; cases scanQ3 (x :: r) <;> rfl
+  · rename_i h1 h; simp at h; subst h; exact absurd rfl (h1 _)
+  · rename_i h; simp at h
+  · rename_i h1 h2 h; simp at h; exact absurd h.1.symm h1
+  · rename_i h; simp at h
+
+theorem prepare_head (t : Str) (ht : t ≠ []) : ∃ c r, prepareTextForDbml t = c :: r ∧ c ≠ '\'' := by
+  fun_induction prepareTextForDbml t with
+  | case1 r ih => exact ⟨_, _, rfl, by decide⟩
+  | case2 r hr ih => exact ⟨_, _, rfl, by decide⟩
+  | case3 r ih => exact ⟨_, _, rfl, by decide⟩
+  | case4 c r h1 h2 h3 ih => exact ⟨c, _, rfl, by intro e; subst e; simp at h2⟩
+  | case5 => exact absurd rfl ht
+
+/-- A text written as `'''` + escaped text + `'''` is scanned exactly up to its closing quotes,
+    unless it ends with a `'''` chunk (the named exclusion `TripleQuote`). -/
+theorem scanQ3_prepare (t rest : Str) (h : endsTriple t = false) :
+    scanQ3 (prepareTextForDbml t ++ '\'' :: '\'' :: '\'' :: rest) = some (prepareTextForDbml t, rest) := by
+  fun_induction prepareTextForDbml t with
+  | case1 r ih =>
+    have hr : r ≠ [] := by intro e; subst e; simp [endsTriple] at h
+    have h' : endsTriple r = false := by
+      cases r with
+      | nil => exact absurd rfl hr
+      | cons a as => simpa [endsTriple] using h
+    obtain ⟨c, r', hp, hc⟩ := prepare_head r hr
+    simp only [List.cons_append]
+    rw [scanQ3_esc]
+    have := ih h'
+    rw [hp] at this ⊢
+    simp only [List.cons_append] at this ⊢
+    rw [scanQ3_two c _ hc, this]
+    rfl
+  | case2 r hr ih =>
+    have h' : endsTriple r = false := by
+      rw [endsTriple.eq_def] at h
+      split at h
+      · rename_i h0; simp at h0; exact absurd h0 (hr _)
+      · rename_i h0; simp at h0; exact absurd h0 (hr _)
+      · rename_i h0; simp at h0; obtain ⟨_, rfl⟩ := h0; exact h
+      · rename_i h0; simp at h0
+    simp only [List.cons_append]
+    rw [scanQ3_esc, ih h']
+    rfl
+  | case3 r ih =>
+    have h' : endsTriple r = false := by
+      rw [endsTriple.eq_def] at h
+      split at h
+      · rename_i h0; simp at h0
+      · rename_i h0; simp at h0
+      · rename_i h0; simp at h0; obtain ⟨_, rfl⟩ := h0; exact h
+      · rename_i h0; simp at h0
+    simp only [List.cons_append]
+    rw [scanQ3_esc, ih h']
+    rfl
+  | case4 c r hc1 hc2 hc3 ih =>
+    have hq : c ≠ '\'' := by intro e; subst e; simp at hc2
+    have hb : c ≠ '\\' := by intro e; subst e; simp at hc3
+    have h' : endsTriple r = false := by
+      rw [endsTriple.eq_def] at h
+      split at h
+      · rename_i h0; simp at h0; exact absurd h0.1 hq
+      · rename_i h0; simp at h0; exact absurd h0.1 hq
+      · rename_i h0; simp at h0; obtain ⟨_, rfl⟩ := h0; exact h
+      · rename_i h0; simp at h0
+    simp only [List.cons_append]
+    rw [scanQ3_plain c _ hq hb, ih h']
+    rfl
+  | case5 => simpa using scanQ3_close rest
+
+/-! ### the grammar's `string_literal` on what the renderer writes -/
+
+theorem advance_rest (c : Cur) (n : Nat) : (advance c n).rest = c.rest.drop n := by
+  induction n generalizing c with
+  | zero => rfl
+  | succ n ih =>
+    unfold advance
+    cases h : c.rest with
+    | nil => simp [h]
+    | cons x r => simp [ih]
+
+theorem advance_pastEnd (c : Cur) (n : Nat) : (advance c n).pastEnd = c.pastEnd := by
+  induction n generalizing c with
+  | zero => rfl
+  | succ n ih =>
+    unfold advance
+    cases h : c.rest with
+    | nil => rfl
+    | cons x r => simp [ih]
+
+theorem curAfter_rest (c : Cur) (pre rest : Str) (h : c.rest = pre ++ rest) : (curAfter c rest).rest = rest := by
+  unfold curAfter
+  rw [advance_rest, h]
+  simp
+
+theorem skipWs_quote (c : Cur) (r : Str) (h : c.rest = '\'' :: r) : skipWs c = c := by
+  cases c with
+  | mk p r' pe =>
+    simp only at h
+    subst h
+    simp [skipWs, skipWsList, isWs]
+
+/-- `string_literal` reads a one-line text written as `'` + escaped text + `'` back to the text and
+    stops right after the closing quote. -/
+theorem stringLiteral_reads_one_line (t rest : Str) (prev : Option Char)
+    (h1 : oneLine t = true) (h3 : hasTriple t = false)
+    (hr : t ≠ [] ∨ rest.head? ≠ some '\'') :
+    ∃ c', stringLiteral { prev := prev, rest := '\'' :: (prepareTextForDbml t ++ '\'' :: rest) } = .ok t c'
+        ∧ c'.rest = rest ∧ c'.pastEnd = false := by
+  let c : Cur := { prev := prev, rest := '\'' :: (prepareTextForDbml t ++ '\'' :: rest) }
+  have hsk : skipWs c = c := skipWs_quote c _ rfl
+  have hscan := scanQ1_prepare t rest h1 h3
+  have hno3 : ∀ r3, prepareTextForDbml t ++ '\'' :: rest ≠ '\'' :: '\'' :: r3 := by
+    intro r3 e
+    by_cases ht : t = []
+    · subst ht
+      simp [prepareTextForDbml] at e
+      rcases hr with hr | hr
+      · exact hr rfl
+      · rw [e] at hr; simp at hr
+    · obtain ⟨x, r', hp, hx⟩ := prepare_head t ht
+      rw [hp] at e
+      simp at e
+      exact hx e.1
+  refine ⟨curAfter c rest, ?_, ?_, ?_⟩
+  · show stringLiteral c = _
+    unfold stringLiteral
+    rw [hsk]
+    show (if c.pastEnd = true then _ else _) = _
+    simp only [c, Bool.false_eq_true, ↓reduceIte, hscan, Option.map_some]
+    rw [unquote_prepare]
+  · exact curAfter_rest c ('\'' :: prepareTextForDbml t ++ ['\'']) rest (by simp [c])
+  · unfold curAfter; rw [advance_pastEnd]
+
+/-- `string_literal` reads a text written as `'''` + escaped text + `'''` (single- or multi-line)
+    back to the text and stops right after the closing quotes, unless the text ends with a
+    `'''` chunk (`TripleQuote`). -/
+theorem stringLiteral_reads_triple (t rest : Str) (prev : Option Char) (h : endsTriple t = false) :
+    ∃ c', stringLiteral { prev := prev, rest := '\'' :: '\'' :: '\'' :: (prepareTextForDbml t ++ '\'' :: '\'' :: '\'' :: rest) }
+            = .ok t c'
+        ∧ c'.rest = rest ∧ c'.pastEnd = false := by
+  let c : Cur := { prev := prev, rest := '\'' :: '\'' :: '\'' :: (prepareTextForDbml t ++ '\'' :: '\'' :: '\'' :: rest) }
+  have hsk : skipWs c = c := skipWs_quote c _ rfl
+  have hscan := scanQ3_prepare t rest h
+  have h1 : scanQ1 '\'' ('\'' :: '\'' :: (prepareTextForDbml t ++ '\'' :: '\'' :: '\'' :: rest))
+      = some ([], '\'' :: (prepareTextForDbml t ++ '\'' :: '\'' :: '\'' :: rest)) := scanQ1_close '\'' _ (by decide)
+  refine ⟨curAfter c rest, ?_, ?_, ?_⟩
+  · show stringLiteral c = _
+    unfold stringLiteral
+    rw [hsk]
+    show (if c.pastEnd = true then _ else _) = _
+    simp only [c, Bool.false_eq_true, ↓reduceIte, h1, hscan, Option.map_some]
+    have hlt : rest.length < ('\'' :: (prepareTextForDbml t ++ '\'' :: '\'' :: '\'' :: rest)).length := by
+      simp; omega
+    simp only [hlt, ↓reduceIte]
+    rw [unquote_prepare]
+  · exact curAfter_rest c ('\'' :: '\'' :: '\'' :: prepareTextForDbml t ++ ['\'', '\'', '\'']) rest (by simp [c])
+  · unfold curAfter; rw [advance_pastEnd]
+
 end C13
 end PyDBML
